@@ -12,7 +12,7 @@ For every well-formed converter tree `c` and every input `v`:
 The statement holds for **every** behaviour of user conditions (`E.cond`), `__post_init__` hooks
 (`E.hook`), scalar / subclass constructors and `re.compile` (`E.call`): they may raise any exception
 class whatsoever.  That is exactly what `GuardsCover` buys: the guards around them are
-`except Exception`.  Only three externals carry an assumption (`ExtOk`).
+`except Exception`.  Only four groups of externals carry an assumption (`ExtOk`).
 -/
 namespace PaneModel
 
@@ -63,6 +63,10 @@ structure ExtOk (E : Ext) : Prop where
   numpy_total : ∀ r s, shapeOf r = some s → ∃ a, E.call "numpy.array" r = .ok a
   /-- user-written converters reached through `custom` satisfy the two-pass contract themselves. -/
   custom_good : ∀ id, GoodF (E.customTry id) (E.customCol id)
+  /-- `datetime.date()`, `datetime.time()` and `datetime.combine(date, time())` — the three method calls
+  of the cross cells of `DatetimeConverter`, which the fast pass does not guard and the diagnostic pass
+  does not make — do not raise on an instance of the class they belong to. -/
+  dt_total : DtTotal E
 
 /-! ## The induction -/
 
@@ -97,7 +101,7 @@ theorem C03.good (hG : GuardsCover = true) (hE : ExtOk E) :
   | .any, _ => good_any
   | .noneC, _ => good_noneC
   | .scalar .., _ => good_scalar (gAll hG (by decide)) (gAll hG (by decide))
-  | .datetime _, _ => good_datetime (gVal hG (by decide)) (gVal hG (by decide)) hE.fromiso_valueError
+  | .datetime _, _ => good_datetime (gVal hG (by decide)) (gVal hG (by decide)) hE.fromiso_valueError hE.dt_total
   | .literal _, _ => good_literal
   | .custom _, _ => good_custom hE.custom_good
   | .union cs, h => good_union (C03.goods hG hE cs (by simpa only [Conv.wf] using h))
@@ -192,10 +196,14 @@ theorem C03_convert_value_iff (hG : GuardsCover = true) (hE : ExtOk E) (c : Conv
 
 /-! ## Non-vacuity -/
 
-/-- An `Ext` in which every user callback and every external except `numpy.array` raises. -/
+/-- An `Ext` in which every user callback and every external except `numpy.array` and the three
+date/time methods of `DtTotal` raises. -/
 def extRaising : Ext where
   call := fun name v =>
     if name == "numpy.array" then .ok (.wrap "ndarray" v)
+    else if name == "dt:date" then .ok (.opaque "date" "1970-01-01")
+    else if name == "dt:time" then .ok (.opaque "time" "00:00:00")
+    else if name == "dt:combine" then .ok (.opaque "datetime" "1970-01-01T00:00:00")
     else .error { cls := .valueError, msg := "ValueError" }
   cond := fun _ _ _ => .error { cls := .zeroDivision, msg := "ZeroDivisionError" }
   hook := fun _ _ => .error { cls := .attributeError, msg := "AttributeError" }
@@ -211,11 +219,11 @@ theorem extRaising_ok : ExtOk extRaising where
   fromiso_valueError := by
     intro ty v e h
     simp only [extRaising] at h
-    split at h
-    · cases h
-    · cases h; rfl
+    repeat' split at h
+    all_goals first | (cases h; done) | (cases h; rfl)
   numpy_total := fun r _ _ => ⟨.wrap "ndarray" r, by simp [extRaising]⟩
   custom_good := fun _ v => .inr ⟨rfl, _, rfl⟩
+  dt_total := ⟨fun _ _ => ⟨_, rfl⟩, fun _ _ => ⟨_, rfl⟩, fun _ _ => ⟨_, rfl⟩⟩
 
 def exInt : Conv := .scalar "int" [.int] .ident "an int" "ints"
 
@@ -262,6 +270,41 @@ def exDupInfo : PaneInfo where
 example : (Conv.pane exDupInfo [exInt, exInt]).wf = false := by decide
 example : (tryC extRaising (.pane exDupInfo [exInt, exInt]) (.dict [])).isOk = true := by rfl
 example : ∃ t, colC extRaising (.pane exDupInfo [exInt, exInt]) (.dict []) = .ok (some t) := ⟨_, rfl⟩
+
+/-! ### `DatetimeConverter`: the typed cells
+
+`id` cells (an instance of a user subclass is returned unchanged), the three cross cells (method calls
+through `Ext`), the refused cells. -/
+
+example : tryC extRaising (.datetime "date") (.opaque "date" "2024-01-02") = .ok (.opaque "date" "2024-01-02") := by rfl
+example : tryC extRaising (.datetime "datetime") (.sub "MyDT" (.opaque "datetime" "2024-01-02T03:04:05")) =
+    .ok (.sub "MyDT" (.opaque "datetime" "2024-01-02T03:04:05")) := by rfl
+example : tryC extRaising (.datetime "date") (.opaque "datetime" "2024-01-02T03:04:05") =
+    .ok (.opaque "date" "1970-01-01") := by rfl
+example : tryC extRaising (.datetime "time") (.sub "MyDT" (.opaque "datetime" "2024-01-02T03:04:05")) =
+    .ok (.opaque "time" "00:00:00") := by rfl
+example : tryC extRaising (.datetime "datetime") (.opaque "date" "2024-01-02") =
+    .ok (.opaque "datetime" "1970-01-01T00:00:00") := by rfl
+example : colC extRaising (.datetime "datetime") (.opaque "date" "2024-01-02") = .ok none := by rfl
+example : tryC extRaising (.datetime "date") (.opaque "time" "03:04:05") = .interrupt := by rfl
+example : tryC extRaising (.datetime "time") (.opaque "date" "2024-01-02") = .interrupt := by rfl
+example : tryC extRaising (.datetime "datetime") (.opaque "time" "03:04:05") = .interrupt := by rfl
+example : tryC extRaising (.datetime "date") (.opaque "Decimal" "1") = .interrupt := by rfl
+example : ∃ t, colC extRaising (.datetime "time") (.opaque "date" "2024-01-02") = .ok (some t) :=
+  (C03_failed_iff_tree C03_guards extRaising_ok (.datetime "time") (by decide) _).1 (by rfl)
+
+/-- Why `ExtOk.dt_total` is there.  The fast pass calls `val.date()` unguarded, the diagnostic pass does
+not call it at all: with an `Ext` in which that method raises, the fast pass leaks the exception while
+the diagnostic pass reports nothing — the two-pass contract fails without the hypothesis. -/
+def extDtRaises : Ext :=
+  { extRaising with call := fun _ _ => .error { cls := .other, msg := "OverflowError: date value out of range" } }
+
+example : tryC extDtRaises (.datetime "date") (.opaque "datetime" "2024-01-02T03:04:05") =
+    .leak { cls := .other, msg := "OverflowError: date value out of range" } := by rfl
+example : colC extDtRaises (.datetime "date") (.opaque "datetime" "2024-01-02T03:04:05") = .ok none := by rfl
+example : ¬ DtTotal extDtRaises := fun h => by
+  obtain ⟨x, hx⟩ := h.date_of_datetime (.opaque "datetime" "") rfl
+  cases hx
 
 /-! ## Axioms -/
 
